@@ -162,6 +162,10 @@ WITNESS = {"id": "witnessF10", "family": "wavelet", "state": "loaded", "threads"
            "lines": ["burst witnessF10", "s make wavelet 2 1 1 1", "s load hash", "threads 2",
                      "op 0 iw x: 0x1p-2 0x1p-3", "op 1 iw x: 0x1p-1 -0x1p-2", "end"]}
 
+WITNESS2 = {"id": "witnessLgamma", "family": "global", "state": "loaded", "threads": 2, "kinds": ["points", "qw", "evalb", "hbasis"], "spec": {},
+            "lines": ["burst witnessLgamma", "s make global 2 1 2 level clenshaw-curtis", "s conformal 2 3", "s load poly", "threads 2",
+                      "op 0 points", "op 1 qw", "op 0 evalb x: 0x1p-2 0x1p-3", "op 1 hbasis x: 0x1p-1 -0x1p-2", "end"]}
+
 
 # ----------------------------------------------------------------------------------------------- running and parsing
 FRAME = re.compile(r"^\s+#\d+\s+(.*?)\s+(/\S+?):(\d+)")
@@ -209,51 +213,63 @@ def report_key(rep):
 
 
 def run_variant(drv, bursts, variant, tag):
-    wd = os.path.join(WORK, tag)
-    os.makedirs(wd, exist_ok=True)
-    for f in os.listdir(wd):
-        if f.endswith(".tsan") or f.endswith(".tsg"):
-            os.remove(os.path.join(wd, f))
-    sp = os.path.join(wd, "bursts.txt")
-    with open(sp, "w") as fh:
-        for b in bursts:
-            fh.write("\n".join(b["lines"]) + "\n")
+    """runs the bursts (in up to 4 driver processes side by side when there are many); -> (rc, results by burst id, stderr)"""
+    import concurrent.futures as cf
+    nchunk = 1 if len(bursts) <= 150 else 4
+    chunks = [bursts[i::nchunk] for i in range(nchunk)]
     env = dict(os.environ)
     env["TSAN_OPTIONS"] = "exitcode=66 halt_on_error=0 report_signal_unsafe=0 second_deadlock_stack=1"
-    rc, so, se = vlib.run([drv, sp, wd, "120"], timeout=3600, env=env)
-    open(os.path.join(wd, "bursts.out"), "w").write(so)
-    out, cur = {}, None
-    for line in so.split("\n"):
-        t = line.split()
-        if not t:
-            continue
-        if t[0] == "burst":
-            cur = {"diff": [], "same": 0, "exc": 0, "setup_exc": None, "exit": None, "detail": [], "refdone": False}
-            out[t[1]] = cur
-        elif cur is None:
-            continue
-        elif t[0] == "r":
-            if t[2] == "same":
-                cur["same"] += 1
-            else:
-                cur["diff"].append((int(t[1]), t[3]))
-            if len(t) > 4 and t[4] == "exc":
-                cur["exc"] += 1
-        elif t[0] == "p":
-            cur["refdone"] = True
-        elif t[0] == "d":
-            cur["detail"].append(line[:400])
-        elif t[0] == "x" and t[1] == "setup":
-            cur["setup_exc"] = " ".join(t[2:])
-        elif t[0] == "g":
-            cur["grid"] = dict(x.split("=") for x in t[1:])
-        elif t[0] == "e":
-            cur["exit"] = t[2]
+
+    def one(ci):
+        wd = os.path.join(WORK, tag if nchunk == 1 else "%s-%d" % (tag, ci))
+        os.makedirs(wd, exist_ok=True)
+        for f in os.listdir(wd):
+            if f.endswith(".tsan") or f.endswith(".tsg"):
+                os.remove(os.path.join(wd, f))
+        sp = os.path.join(wd, "bursts.txt")
+        with open(sp, "w") as fh:
+            for b in chunks[ci]:
+                fh.write("\n".join(b["lines"]) + "\n")
+        rc, so, se = vlib.run([drv, sp, wd, "120"], timeout=3600, env=env)
+        open(os.path.join(wd, "bursts.out"), "w").write(so)
+        return ci, wd, rc, so, se
+    out, rcs, errs = {}, 0, ""
+    with cf.ThreadPoolExecutor(nchunk) as ex:
+        for ci, wd, rc, so, se in ex.map(one, range(nchunk)):
+            rcs = rcs or rc
+            errs += se[-300:]
+            cur = None
+            for line in so.split("\n"):
+                t = line.split()
+                if not t:
+                    continue
+                if t[0] == "burst":
+                    cur = {"diff": [], "same": 0, "exc": 0, "setup_exc": None, "exit": None, "detail": [], "refdone": False, "wd": wd}
+                    out[t[1]] = cur
+                elif cur is None:
+                    continue
+                elif t[0] == "r":
+                    if t[2] == "same":
+                        cur["same"] += 1
+                    else:
+                        cur["diff"].append((int(t[1]), t[3]))
+                    if len(t) > 4 and t[4] == "exc":
+                        cur["exc"] += 1
+                elif t[0] == "p":
+                    cur["refdone"] = True
+                elif t[0] == "d":
+                    cur["detail"].append(line[:400])
+                elif t[0] == "x" and t[1] == "setup":
+                    cur["setup_exc"] = " ".join(t[2:])
+                elif t[0] == "g":
+                    cur["grid"] = dict(x.split("=") for x in t[1:])
+                elif t[0] == "e":
+                    cur["exit"] = t[2]
     for b in bursts:
         o = out.get(b["id"])
         if o is not None:
-            o["tsan"] = parse_tsan(os.path.join(wd, b["id"] + ".tsan")) if variant == "tsan" else []
-    return rc, out, se
+            o["tsan"] = parse_tsan(os.path.join(o["wd"], b["id"] + ".tsan")) if variant == "tsan" else []
+    return rcs, out, errs
 
 
 def judge(res, bursts, results, variant, stats, wavelet_hit):
@@ -345,7 +361,8 @@ def run(res, tier, seed, replay_script=None):
                 bursts[0]["threads"] = int(l.split()[1])
         nb = 0
     else:
-        bursts.append(dict(WITNESS))
+        bursts.append(dict(WITNESS))       # corpus first (corpus/C12/*.txt hold the same bursts)
+        bursts.append(dict(WITNESS2))
     for i in range(nb):
         fams = gl.FAMILIES
         if bad_families and i % 2 == 0:
@@ -401,7 +418,7 @@ def run(res, tier, seed, replay_script=None):
         "rule": "a burst = fresh grid (family x state class fresh/loaded/refined/refined-loaded/zero-outputs/from-file, random rule/depth/order/"
                 "transform) + N in {2,4,8} threads each executing 2-5 random const calls (60% start with a weight query), run once under "
                 "ThreadSanitizer and once in the plain build; non-trivial = setup accepted, >= 2 threads and >= 4 calls; distinct by script hash",
-        "samples": [b["lines"] for b in bursts[1:3]] or [bursts[0]["lines"]],
+        "samples": [b["lines"] for b in bursts[2:4]] or [bursts[0]["lines"]],
         "bursts": len(bursts), "bursts_run_tsan": stats["ran_tsan"], "bursts_run_plain": stats["ran_plain"],
         "setup_rejected_by_library": stats["setup_rejected"], "tsan_reports": stats["tsan_reports"],
         "skipped_crash_when_run_alone": stats["sequential_crash"][:20],
